@@ -95,8 +95,8 @@ def norm(t, depth=0):
             return norm(Term("bin", o[: -len("WithOverflow")], x, y, ty), d)
         if e[0] == "f":
             base = norm(a[0], d)
-            if base[0] == "agg" and isinstance(e[1], int) and e[1] < len(base[3]) and e[2] is None:
-                return base[3][e[1]]
+            if base[0] == "agg" and isinstance(e[1], int) and e[1] < len(base[3]) and (e[2] is None or "closure" not in str(base[1])):
+                return base[3][e[1]]       # a field of a value whose construction is visible (tuple, or struct such as start..end)
             return ("fld", base, e[2] if e[2] is not None else e[1])
         if e[0] == "idx":
             return ("idx", norm(a[0], d), norm(e[1], d))
